@@ -357,7 +357,27 @@ Fixpoint spec_copied (loc : list str) (e : entry) {struct e} : list (list str) :
     end
   end.
 
-(* the directories that copy_subdir of an index.md names: all their files must be copied *)
+Definition has_titled_index (e : entry) : bool :=
+  match e with
+  | Dir _ es => match titled_index es with Some _ => true | None => false end
+  | File _ _ _ _ => false
+  end.
+
+(* the directories that the copy_subdir list (own metadata, else the project setting) of a
+   written page names: all their files must be present beside that page.  For the index.md of
+   a directory this is demanded for every named directory; for another page of the directory it
+   is demanded for the directories that are not themselves directories of pages (a directory
+   with an index.md of its own may have been written as a sub-tree before, and copytree refuses
+   an existing destination). *)
+Definition copy_items (es : list entry) (loc : list str) (from_index : bool)
+           (items : list str) : list (list str) :=
+  flat_map (fun item => match find_entry item es with
+                        | Some (Dir n sub) =>
+                          if from_index || negb (has_titled_index (Dir n sub))
+                          then map (app loc) (all_files (Dir n sub)) else []
+                        | _ => []
+                        end) items.
+
 Fixpoint spec_copydirs (proj : list str) (loc : list str) (e : entry) {struct e}
   : list (list str) :=
   match e with
@@ -366,10 +386,13 @@ Fixpoint spec_copydirs (proj : list str) (loc : list str) (e : entry) {struct e}
     match titled_index es with
     | None => []
     | Some (_, cp) =>
-      flat_map (fun item => match find_entry item es with
-                            | Some (Dir n sub) => map (app loc) (all_files (Dir n sub))
-                            | _ => []
-                            end) (eff_copy proj cp)
+      copy_items es loc true (eff_copy proj cp)
+        ++ flat_map (fun x => match x with
+                              | File n true _ cpx =>
+                                if md_name n && negb (str_eqb n idx)
+                                then copy_items es loc false (eff_copy proj cpx) else []
+                              | _ => []
+                              end) es
         ++ flat_map (fun x => match x with
                               | Dir n _ => if visible n then spec_copydirs proj (loc ++ [n]) x
                                            else []
@@ -397,12 +420,6 @@ Fixpoint may_fail (e : entry) : bool :=
 
 (* ------------------------------------------------------------------------------------------ *)
 (* Regions *)
-Definition has_titled_index (e : entry) : bool :=
-  match e with
-  | Dir _ es => match titled_index es with Some _ => true | None => false end
-  | File _ _ _ _ => false
-  end.
-
 (* the theorems' region: no directory with an index.md of its own is named by the copy_subdir
    list of its directory's index.md (two readings of the user guide) or of the index.md one
    level further up (there the code skips it by mistake) *)
